@@ -404,4 +404,53 @@ example : ∃ (s0 : Recon Nat Rat) (hist : List RunCfg) (cfg : RunCfg),
     { reset := false, numIters := 1, b := 3, n := 10, ratio := 0.0, mode := .grid }],
    { reset := true, numIters := 2, b := 3, n := 10, ratio := 0.0, mode := .grid }, rfl, rfl, rfl, by decide⟩
 
+/-! ### 7. exception safety of configuration calls -/
+
+/-- **A rejected configuration call leaves the session untouched**: whatever value is handed to the
+`batch_size`, `val_ratio`, `val_mode` or `rng` setter, if the call raises nothing has been stored. -/
+theorem rejected_call_is_noop {P R : Type} (entropy : Nat) (s : Session P R) (call : CfgCall)
+    (h : (applyCall entropy s call).2 = true) : (applyCall entropy s call).1 = s := by
+  cases call with
+  | batchSize v =>
+    cases v with
+    | none => rfl
+    | int i => simp only [applyCall] at h ⊢; split at h <;> first | rfl | (simp at h)
+    | float f => simp only [applyCall] at h ⊢; split at h <;> first | rfl | (simp at h)
+    | str t => simp only [applyCall] at h ⊢; split at h <;> first | rfl | (simp at h)
+    | other => simp only [applyCall] at h ⊢; split at h <;> first | rfl | (simp at h)
+  | valRatio v => simp only [applyCall] at h ⊢; split at h <;> first | rfl | (simp at h)
+  | valMode v => simp only [applyCall] at h ⊢; split at h <;> first | rfl | (simp at h)
+  | rng v =>
+    cases v with
+    | none => simp [applyCall] at h
+    | int k =>
+      simp only [applyCall] at h ⊢
+      by_cases hk : k ≥ 0
+      · simp [hk] at h
+      · simp [hk]
+    | float f => rfl
+    | str t => rfl
+    | other => rfl
+
+/-- **… and so does the next run**: a run made after a rejected call — with `batch_size=None` or any
+other request — is the run the object would have made had the rejected call never happened
+(same schedule, same state, same loss history); a `reconstruct(batch_size=v)` whose `v` is
+rejected changes nothing at all. -/
+theorem run_after_rejected_call {P R : Type} [Num R] (draw : Gen → List Nat → List Nat)
+    (stepFn : P → List Nat → P × R) (valFn : P → List Nat → R) (entropy n : Nat) (s : Session P R)
+    (call : CfgCall) (h : (applyCall entropy s call).2 = true) (reset : Bool) (numIters : Nat) (v : CfgVal) :
+    reconstructS draw stepFn valFn entropy n reset numIters v (applyCall entropy s call).1
+        = reconstructS draw stepFn valFn entropy n reset numIters v s ∧
+      ((applyCall entropy s (.batchSize v)).2 = true →
+        reconstructS draw stepFn valFn entropy n reset numIters v s = (s, [], true)) := by
+  refine ⟨by rw [rejected_call_is_noop entropy s call h], ?_⟩
+  intro hv
+  unfold reconstructS
+  simp only [hv, if_true]
+
+/-- rejected and accepted calls both exist -/
+example : validBatchSize (.int (-1)) = none ∧ validBatchSize (.int 0) = none ∧ validBatchSize (.str "a") = none ∧
+    validBatchSize (.int 4) = some 4 ∧ validValMode (.str "Grid") = none ∧ validValMode (.str "grid") = some .grid := by
+  decide
+
 end QuantemModel.Props.C09
